@@ -194,19 +194,99 @@ func (l lazyAuthz) Authorize(ctx context.Context, a authorizer.Attributes) (auth
 }
 
 type wiredWorld struct {
-	r     *vkit.R
-	idx   int
-	gw    *bed.Gateway
-	stubs map[string]*wstub
-	names []string
-	alias map[string]string // alias -> owning cluster ("" = nobody)
-	ever  map[string]map[string]bool
-	log   []string
-	idn   int
-	lock  sync.Mutex
-	down  map[string]bool // cluster -> its endpoint currently fails the health probes
+	r           *vkit.R
+	idx         int
+	gw          *bed.Gateway
+	stubs       map[string]*wstub
+	names       []string
+	alias       map[string]string // alias -> owning cluster ("" = nobody)
+	ever        map[string]map[string]bool
+	log         []string
+	idn         int
+	lock        sync.Mutex
+	down        map[string]bool // cluster -> its endpoint currently fails the health probes
+	recreations int
 
 	beforeAuthn, beforeAuthz atomic.Value
+
+	gone    map[string]bool // cluster object deleted right now
+	retired []*retiredStub  // upstreams of deleted incarnations: nothing may reach them any more
+}
+
+type retiredStub struct {
+	s          *wstub
+	revs, reqs int
+}
+
+func (s *wstub) reqCount() int {
+	s.mu.Lock()
+	defer s.mu.Unlock()
+	return len(s.reqs)
+}
+
+// recreate deletes cluster c and creates it again under the same name in front of a NEW upstream (new answers, new
+// identity): what was learnt from the deleted incarnation must not be applied to requests for the new one, and nothing may
+// be sent to the old upstream any more.
+func (w *wiredWorld) recreate(c string, g *vkit.Rand, toks []string) bool {
+	r := w.r
+	var hosts []string
+	for _, a := range []string{"x.io", "y.io", "z.io"} {
+		if w.alias[a] == c {
+			hosts = append(hosts, a)
+		}
+	}
+	hosts = append(hosts, c, strings.ToUpper(c)+":6443")
+	var creds []wreq
+	for _, h := range hosts {
+		for _, t := range toks {
+			creds = append(creds, wreq{Host: h, Token: t}, wreq{Host: h, Token: t, Impersonate: "admin"})
+		}
+	}
+	for _, q := range creds {
+		w.send(q, true) // fills the caches of the incarnation that is about to be deleted
+	}
+	if sr := w.gw.Delete(c); sr.Panic != nil || sr.Err != nil {
+		r.Inconclusive(fmt.Sprintf("wired: delete of cluster %s failed: %+v", c, sr))
+		return false
+	}
+	w.gone[c] = true
+	w.lock.Lock()
+	w.log = append(w.log, "DELETE cluster "+c)
+	w.lock.Unlock()
+	for _, q := range creds[:4] {
+		w.send(q, true) // nobody's names now: nothing may be forwarded, nobody may be asked
+	}
+	old := w.stubs[c]
+	w.recreations++
+	w.stubs[c] = newWStub(fmt.Sprintf("%sr%d", c, w.recreations), g.Uint64())
+	w.retired = append(w.retired, &retiredStub{s: old, revs: old.reviewCount(), reqs: old.reqCount()})
+	w.gone[c] = false
+	if !w.apply(c) {
+		return false
+	}
+	w.lock.Lock()
+	w.log = append(w.log, fmt.Sprintf("RE-CREATE cluster %s in front of a new upstream (identity %s)", c, w.stubs[c].name))
+	w.lock.Unlock()
+	r.Count("wired_clusters_recreated_under_same_name", 1)
+	for _, q := range creds {
+		w.send(q, true)
+		r.Count("wired_requests_after_recreation", 1)
+	}
+	return w.checkRetired()
+}
+
+func (w *wiredWorld) checkRetired() bool {
+	for _, rs := range w.retired {
+		if rs.s.reviewCount() != rs.revs || rs.s.reqCount() != rs.reqs {
+			w.lock.Lock()
+			wit := map[string]interface{}{"world": w.idx, "last_requests_and_moves": append([]string{}, w.log...)}
+			w.lock.Unlock()
+			w.r.Violation("C12/wired/upstream-of-deleted-incarnation-still-used", fmt.Sprintf("the upstream of the deleted incarnation %q received %d review(s) and %d request(s) after the cluster was deleted",
+				rs.s.name, rs.s.reviewCount()-rs.revs, rs.s.reqCount()-rs.reqs), wit)
+			rs.revs, rs.reqs = rs.s.reviewCount(), rs.s.reqCount()
+		}
+	}
+	return true
 }
 
 func hostVariant(g *vkit.Rand, h string) string {
@@ -244,12 +324,25 @@ func (w *wiredWorld) apply(c string) bool {
 
 func (w *wiredWorld) owner(host string) string {
 	h := normHostW(host)
-	for _, c := range w.names {
-		if c == h {
-			return c
+	c := w.alias[h]
+	for _, n := range w.names {
+		if n == h {
+			c = n
 		}
 	}
-	return w.alias[h]
+	if c != "" && w.gone[c] {
+		return "" // the cluster object is deleted right now: none of its names belongs to anybody
+	}
+	return c
+}
+
+// ident is the identity the current incarnation of cluster c puts into its answers (the cluster name itself, or
+// "<name>r<k>" after the object was deleted and created again in front of a new upstream).
+func (w *wiredWorld) ident(c string) string {
+	if s := w.stubs[c]; s != nil {
+		return s.name
+	}
+	return c
 }
 
 func normHostW(h string) string {
@@ -336,8 +429,14 @@ func (w *wiredWorld) send(q wreq, sequential bool) {
 		}
 	}
 	class := func(p string) string {
-		if w.ever[normHostW(q.Host)][p] {
-			return "stale-answer-after-host-changed-owner"
+		h := normHostW(q.Host)
+		for c := range w.ever[h] {
+			if p == c || strings.HasPrefix(p, c+"r") {
+				return "stale-answer-after-host-changed-owner"
+			}
+		}
+		if p == h || strings.HasPrefix(p, h+"r") {
+			return "stale-answer-of-deleted-incarnation"
 		}
 		return "answer-of-unrelated-cluster"
 	}
@@ -346,7 +445,7 @@ func (w *wiredWorld) send(q wreq, sequential bool) {
 		if gotAt != owner {
 			// the Host header addresses `owner`; whose reviews decided the request that cluster `gotAt` now serves?
 			p := provenanceOf(got.ImpUser)
-			foreign := p != "" && p != gotAt
+			foreign := p != "" && p != w.ident(gotAt)
 			for n := range reviewedAt {
 				if n != gotAt {
 					foreign = true
@@ -364,9 +463,9 @@ func (w *wiredWorld) send(q wreq, sequential bool) {
 			return
 		}
 		if q.Impersonate == "" {
-			if p := provenanceOf(got.ImpUser); p != "" && p != owner {
+			if p := provenanceOf(got.ImpUser); p != "" && p != w.ident(owner) {
 				r.Violation("C12/wired/authn/"+class(p), fmt.Sprintf("%s: forwarded to %q under identity %q, which cluster %q issued", desc, gotAt, got.ImpUser, p), wit)
-			} else if p == owner {
+			} else if p == w.ident(owner) {
 				r.Count("wired_authn_by_own_cluster", 1)
 			}
 			return
@@ -378,8 +477,8 @@ func (w *wiredWorld) send(q wreq, sequential bool) {
 		authnUser := "shared-user"
 		groups := []string{"shared", "system:authenticated"}
 		if q.Token != sharedToken {
-			authnUser = "user-of-" + q.Token + "@" + owner
-			groups = []string{"grp@" + owner, "system:authenticated"}
+			authnUser = "user-of-" + q.Token + "@" + w.ident(owner)
+			groups = []string{"grp@" + w.ident(owner), "system:authenticated"}
 		}
 		sp := authorizationv1.SubjectAccessReviewSpec{User: authnUser, Groups: groups,
 			ResourceAttributes: &authorizationv1.ResourceAttributes{Verb: "impersonate", Resource: "users", Name: q.Impersonate, Version: "v1"}}
@@ -392,7 +491,7 @@ func (w *wiredWorld) send(q wreq, sequential bool) {
 	}
 	// not forwarded: a refusal that quotes another cluster's answer was decided by that cluster
 	body := rec.Body.String()
-	if p := provenanceOf(body); p != "" && p != owner {
+	if p := provenanceOf(body); p != "" && p != w.ident(owner) {
 		kind := "authn"
 		if rec.Code == 403 {
 			kind = "authz"
@@ -407,7 +506,7 @@ func wired(r *vkit.R) {
 	nw := r.N(8, 60)
 	phases := r.N(4, 8)
 	r.Parallel(nw, 8, func(i int, g *vkit.Rand) {
-		w := &wiredWorld{r: r, idx: i, stubs: map[string]*wstub{}, names: []string{"cla", "clb", "clc"}, alias: map[string]string{}, ever: map[string]map[string]bool{}, down: map[string]bool{}}
+		w := &wiredWorld{r: r, idx: i, stubs: map[string]*wstub{}, names: []string{"cla", "clb", "clc"}, alias: map[string]string{}, ever: map[string]map[string]bool{}, down: map[string]bool{}, gone: map[string]bool{}}
 		var once sync.Once
 		var an authenticator.Request
 		var az authorizer.Authorizer
@@ -579,6 +678,15 @@ func wired(r *vkit.R) {
 			if outageFirst {
 				replay()
 			}
+			if phase%4 == 2 {
+				if !w.recreate(w.names[g.Intn(3)], g, append([]string{fmt.Sprintf("tok-recreate-%d-%d", i, phase)}, toks[:2]...)) {
+					return
+				}
+			}
+			w.checkRetired()
+		}
+		for _, rs := range w.retired {
+			rs.s.close()
 		}
 		for _, s := range w.stubs {
 			if s.bad != "" {
@@ -592,6 +700,7 @@ func wired(r *vkit.R) {
 		r.Require(r.Counter("wired_reviews_observed") > int64(nw*20), "wired: too few reviews observed at the stub upstreams")
 		r.Require(r.Counter("wired_impersonation_granted_by_own_cluster") > int64(nw), "wired: impersonation was never granted")
 		r.Require(r.Counter("wired_alias_moves") >= int64(nw*phases*3/4), "wired: too few alias moves")
+		r.Require(r.Counter("wired_clusters_recreated_under_same_name") >= int64(nw*3/4) && r.Counter("wired_requests_after_recreation") >= int64(nw*8), "wired: too few clusters deleted and created again under the same name")
 		r.Require(r.Counter("wired_moves_during_request") >= int64(nw), "wired: too few alias moves made while a request for the alias was inside the handler chain")
 		r.Require(r.Counter("wired_outages_after_alias_move") >= int64(nw*phases/2) && r.Counter("wired_requests_during_outage") >= int64(nw*phases*2), "wired: too few outages of the new owner after an alias move")
 		r.Require(r.Counter("wired_requests_with_tls_state") >= int64(nw*40) && r.Counter("wired_requests_sni_names_other_cluster_than_host") >= int64(nw*15), "wired: too few requests whose TLS server name differs from the Host header")
@@ -682,7 +791,7 @@ func (w *wiredWorld) moveDuringRequest(a, from, to string, atAuthz bool, setAlia
 	}
 	r.Count("wired_moves_during_request_forwarded", 1)
 	foreign := false
-	if p := provenanceOf(got.ImpUser); p != "" && p != gotAt {
+	if p := provenanceOf(got.ImpUser); p != "" && p != w.ident(gotAt) {
 		foreign = true
 	}
 	for n := range reviewedAt {
